@@ -1639,6 +1639,40 @@ pub fn c09(ctx: &mut Ctx, path: &str) {
             if l != want_seq.len() { ctx.fail("C09.sequence", c09_feats("normalized_segments.len", t, "standalone"), format!("normalized_segments().len() of {} = {} but the sequence has {} items", show(t), l, want_seq.len())); }
         }
     }
+    // 1b. the same iterator driven from both ends (it is double-ended and exact-size)
+    {
+        let hsh = crate::rng::hash_bytes(t);
+        match crate::ctx::guard(|| {
+            let mut it = p.normalized_segments();
+            let mut front: Vec<Vec<u8>> = Vec::new();
+            let mut back: Vec<Vec<u8>> = Vec::new();
+            let mut lens_ok = true;
+            let mut remaining = it.len();
+            let mut step = 0u32;
+            loop {
+                let from_back = (hsh >> (step % 64)) & 1 == 1;
+                step += 1;
+                let item = if from_back { it.next_back() } else { it.next() };
+                match item {
+                    Some(s) => {
+                        if from_back { back.push(s.as_bytes().to_vec()) } else { front.push(s.as_bytes().to_vec()) }
+                        remaining = remaining.saturating_sub(1);
+                        if it.len() != remaining { lens_ok = false; }
+                    }
+                    None => break,
+                }
+                if front.len() + back.len() > t.len() + 2 { break; }
+            }
+            front.extend(back.into_iter().rev());
+            (front, lens_ok)
+        }) {
+            Err(m) => ctx.fail("C09.panic", c09_feats("normalized_segments", t, "standalone"), format!("normalized_segments of {} driven from both ends panicked: {}", show(t), m)),
+            Ok((v, lens_ok)) => {
+                if v != want_seq { ctx.fail("C09.sequence", c09_feats("normalized_segments", t, "standalone"), format!("normalized_segments of {} driven from both ends (mask {:#x}) = {} but the left-to-right scan gives {}", show(t), hsh, segs_show(&v), segs_show(&want_seq))); }
+                else if !lens_ok { ctx.fail("C09.sequence", c09_feats("normalized_segments.len", t, "standalone"), format!("normalized_segments().len() of {} does not count down while iterating from both ends", show(t))); }
+            }
+        }
+    }
     // 2. normalized copy
     ctx.call("normalized");
     match crate::ctx::guard(|| { let n = p.normalized(); let n2 = n.normalized(); (n.as_bytes().to_vec(), n2.as_bytes().to_vec()) }) {
